@@ -353,7 +353,7 @@ RICH_ARGS = dict(gen.DEFAULT_PROFILE, args=[0, 1, 1.0, True, False, None, 'x', '
                                            {'k': 1.0}, {1: 'a'}, {'1': 'a'}, {'a': 1, 'b': 2}, {'b': 2, 'a': 1},
                                            2 ** 70, -0.0, 0, [[]], [()], {'a': [1, (2,)]}, 'é', '\U0001F600'],
                  kws=[{}, {}, {'k': 1}, {'k': True}, {'k': 1.0}, {'k': [1, (2,)]}, {'a': 1, 'b': 2}, {'b': 2, 'a': 1}, {'k': None}, {'k': 0}, {'k': False}, {'j': None}, {'j': 'x'}, {'m': None, 'k': 1}],
-                 p_sb=0.35, p_bf=0.2, p_q=0.25)
+                 p_sb=0.35, p_bf=0.2, p_q=0.25, p_pool=0.3)
 RICH_RETS = dict(gen.DEFAULT_PROFILE, rets=['acc', 'const', 'const', 'const'])
 
 
@@ -1030,7 +1030,7 @@ def c16_cases(tier, ds):
         names = rng.sample(NAME_POOL, 3)
         p1 = names[0] if '/' not in names[0] else names[0]
         p2 = '%s/%s' % (names[1].replace('/', '_'), names[2].replace('/', '_'))
-        v1, v2, v3 = (rng.choice(vals) for _ in range(3))
+        v1, v2, v3 = (rng.choice(vals) if rng.random() < 0.6 else gen.pool_value(rng) for _ in range(3))
         funcs = [
             # with root argument 1 the build no longer produces the second output (dropped at the commit - and only then)
             gen._fn('f0', [gen._sb(1, arg=v3), gen._bf(p1.replace('/', '_'), 2, arg=v1, cmp_=rng.choice('MH')),
